@@ -13,7 +13,7 @@ demo=$(ls $src | grep -E "demo.*\.go$" | head -1)
 place=$(grep -m1 -oE "place in:? *[A-Za-z0-9_/\.]+" $src/$demo | sed -E 's/place in:? *//'); case "$place" in the|repo*|root) place=".";; esac
 [ -z "$place" ] && place="."
 place=${place%/}
-run=$(grep -m1 -oE "\-run [A-Za-z0-9_|]+" $src/$demo | head -1)
+run=$(grep -m1 -oE -e "-run '?[A-Za-z0-9_|]+" $src/$demo | head -1 | tr -d "'")
 [ -z "$run" ] && run="-run TestC"
 cd $wt
 git apply $src/patch.diff || { echo "PATCH FAILS"; exit 1; }
